@@ -33,6 +33,7 @@ RULE = ('histories of 10–60 commands from four non-owner hostmasks (unregister
 
 OWNER = 'root!r@owner.host'
 ACTORS = ['eve!e@evil.host', 'bob!b@bob.host', 'opp!o@op.host', 'adm!a@admin.host']
+WILD = 'w!?@*'       # fewer than three non-wildcard characters (only ever sends `user register`)
 PWS = ['pw1', 'pw2', 'root-pw', ' pw', 'p w']
 
 _B = None
@@ -235,6 +236,8 @@ def gen_cmd(r, S=None):
 def gen_actor(r, k):
     """the actor most likely to get through the guard of `k`, most of the time"""
     x = r.random()
+    if k == 'register' and x > 0.93:
+        return WILD         # addHostmask refuses it after newUser(): the registration is rolled back
     if x < 0.5:
         if k.startswith('chanCap') or k in ('chanSetDefault', 'chanDisable', 'chanEnable'): return ACTORS[2]
         if k in ('capAdd', 'capRemove', 'ignoreAdd', 'ignoreRemove'): return ACTORS[3]
